@@ -35,8 +35,11 @@ Fixpoint dev_scan (pm : list (Z * Z)) (sup : list Z) (q : Z) (l : list (hev * ob
   end.
 
 Definition holdsb (c : case) : bool :=
-  (* maps whose outputs lie in 0..255 only (all generated maps) *)
-  if forallb (fun kv => (0 <=? snd kv) && (snd kv <=? 255)) (k_pm c)
+  (* maps whose outputs lie in 0..255 only (all generated maps) and which the device of the case reads back
+     (every map output is a fixed point of the device's response x -> x/q*q): with another map a cycle that
+     finds the expected value already in the control skips the write, and the content is then not of the form
+     w/q*q (Props/C01Link.v, C01_dev_needs_reads_back) *)
+  if forallb (fun kv => (0 <=? snd kv) && (snd kv <=? 255)) (k_pm c) && CtrlC05.reads_backb (k_pm c) (k_q c)
   then dev_scan (k_pm c) (supported (k_pm c)) (k_q c) (zip (k_hist c) (k_obs c))
   else true.
 
